@@ -119,6 +119,41 @@ class MapIndexC(RtContract):
         return {'reproduced': bool(bad), 'text': repr(text), 'violated': bad[:5]}
 
 
+def small_texts(is_bytes, maxlen=4):
+    import itertools
+    alpha = [b'a', b' ', b'\n'] if is_bytes else ['a', ' ', '\n', '\r']
+    out = [b'' if is_bytes else '']
+    for n in range(1, maxlen + 1):
+        for t in itertools.product(alpha, repeat=n):
+            out.append((b'' if is_bytes else '').join(t))
+    return out
+
+
+def _bounded_map_index(self, cx):
+    f = native_namespace()['_map_index_to_line_and_column']
+    bad, tried = [], 0
+    for text in small_texts(cx.text.is_bytes, 5):
+        tried += 1
+        try:
+            L, C = f(text)
+        except Exception as e:
+            bad.append({'text': repr(text), 'raised': repr(e)})
+            continue
+        if len(L) != len(text) or len(C) != len(text):
+            bad.append({'text': repr(text), 'lengths': (len(L), len(C))})
+            continue
+        for i in range(len(text)):
+            isn = (not cx.text.is_bytes) and text[i] == '\n'
+            before = 0 if cx.text.is_bytes else text[:i].count('\n')
+            last = -1 if cx.text.is_bytes else text.rfind('\n', 0, i)
+            if not isn and (L[i] != 1 + before or C[i] != i - last):
+                bad.append({'text': repr(text), 'index': i, 'got': (L[i], C[i]), 'want': (1 + before, i - last)})
+    return bad, tried, 'all texts over {a, space, LF, CR} up to length 5'
+
+
+MapIndexC.bounded = _bounded_map_index
+
+
 def lemma_vcs(cx):
     """lemma lastnl-props by induction on i (base, step) - used as a hypothesis by the excerpt contract"""
     i = Const('i_lem', I)
@@ -384,4 +419,53 @@ class RaiseErrorC(RtContract):
         r = as_rope(msg)
         has_exc = r is not None and any(p[0] == 'opaque' and p[1] == 'excerpt' for p in r.pieces)
         yield 'message carries the excerpt unless at end of input', Or(at_end, BoolVal(has_exc))
+def _bounded_excerpt(self, cx):
+    bad, tried = [], 0
+    import itertools
+    for linelen in list(range(0, 12)) + list(range(88, 140)) + [200, 400]:
+        for tail in ('', '\nnext'):
+            text = ('ab\n' + ''.join(chr(48 + (i % 70)) for i in range(linelen)) + tail)
+            if cx.text.is_bytes:
+                text = text.encode()
+            for pos in range(len(text)):
+                tried += 1
+                r = native_excerpt_check(text, pos, cx.text.is_bytes)
+                if r['reproduced']:
+                    bad.append({'text': r['text'][:60] + '...', 'len': len(text), 'pos': pos, 'violated': r['violated']})
+                    if len(bad) > 5:
+                        return bad, tried, 'lines of length 0..11, 88..139, 200, 400 x every offset'
+    return bad, tried, 'lines of length 0..11, 88..139, 200, 400 x every offset'
+
+
+ExcerptC.bounded = _bounded_excerpt
+
+
+def _bounded_raise_error(self, cx):
+    """the error functions of a freshly generated module, called natively on all small texts and positions"""
+    from sourcer import Grammar
+    g = Grammar('start = "a" | Fail("boo")')
+    fns = [v for k, v in vars(g).items() if k.startswith('_raise_error') and callable(v)]
+    mapf = g._map_index_to_line_and_column
+    bad, tried = [], 0
+    for text in small_texts(cx.text.is_bytes, 4):
+        L, C = mapf(text)
+        for pos in range(len(text) + 2):
+            for f in fns[:1]:
+                tried += 1
+                try:
+                    f(text, pos)
+                    bad.append({'text': repr(text), 'pos': pos, 'what': 'returned normally'})
+                except g.ParseError as e:
+                    p = e.position
+                    want = (pos, None, None) if pos >= len(text) else (pos, L[pos], C[pos])
+                    if tuple(p) != want and not (pos < len(text) and not cx.text.is_bytes and text[pos] == '\n' and p.index == pos):
+                        bad.append({'text': repr(text), 'pos': pos, 'position': tuple(p), 'want': want})
+                except Exception as e:
+                    bad.append({'text': repr(text), 'pos': pos, 'raised': repr(e)})
+    return bad, tried, 'all texts over {a, space, LF, CR} up to length 4 x every position 0..len+1'
+
+
+RaiseErrorC.bounded = _bounded_raise_error
+
+
 RT = [MapIndexC(), GetLineColC(), CaretC(), ExcerptC(), RaiseErrorC()]
